@@ -390,9 +390,21 @@ fn encode_case(g: &mut Gen, ctx: &mut Ctx) -> CaseResult {
                     if k.params.is_empty() {
                         k.params.push((Label::Int(-1), leaf_value(g)));
                     }
-                    let l = k.params[g.below(k.params.len())].0.clone();
-                    let at = g.below(k.params.len() + 1);
+                    // (one time in six the repeated label is 0 — the one extra label that is emitted ahead of
+                    // the typed fields — and the two copies may be next to each other, leading, or apart;
+                    // sometimes the key is canonicalised before it is encoded)
+                    let zero = g.ratio(1, 6);
+                    if zero && !k.params.iter().any(|(l, _)| *l == Label::Int(0)) {
+                        let at = if g.bool() { 0 } else { g.below(k.params.len() + 1) };
+                        k.params.insert(at, (Label::Int(0), leaf_value(g)));
+                    }
+                    let l = if zero { Label::Int(0) } else { k.params[g.below(k.params.len())].0.clone() };
+                    let at = if zero && g.bool() { 0 } else { g.below(k.params.len() + 1) };
                     k.params.insert(at, (l.clone(), leaf_value(g)));
+                    if g.ratio(1, 4) {
+                        k.canonicalize(if g.bool() { coset::CborOrdering::Lexicographic } else { coset::CborOrdering::LengthFirstLexicographic });
+                        ctx.class("encode:canonicalized-first");
+                    }
                     must_fail = true;
                     descr = format!("CoseKey with extra label {:?} twice", l);
                     ctx.class("encode:two-equal-extras");
